@@ -93,7 +93,7 @@ type lbCfg struct {
 	wsizes  []int
 	rsizes  []int
 	poller  bool
-	bufSize int // poller mode: defaultLinkBufferSize stand-in (bookSize/maxSize start)
+	bufSize int    // poller mode: defaultLinkBufferSize stand-in (bookSize/maxSize start)
 	seed    []lbOp // the search starts from the state this (contract-respecting) history reaches
 }
 
